@@ -64,8 +64,14 @@ type accReadings struct {
 	ParamInt, ParamIntAbsent int
 	ParamInt64               int64
 	ParamsLen                int
-	AfterSliceEdit           string // Query(name) after the caller edited the slice QueryStrings returned
-	AfterRewrite             string // Query("rewritten") after a handler rewrote URL.RawQuery
+	Query2, Trim2, Unescape2 string   // the same accessors given two defaults: the first one is the default, for every accessor alike
+	Strings2                 []string //
+	Bool2                    bool     //
+	Int2                     int      //
+	Int642                   int64    //
+	Float2                   float64  //
+	AfterSliceEdit           string   // Query(name) after the caller edited the slice QueryStrings returned
+	AfterRewrite             string   // Query("rewritten") after a handler rewrote URL.RawQuery
 	AfterRewriteInt          int
 	RemoteAddr               string
 }
@@ -118,6 +124,8 @@ func accOracle(c *accCase) accReadings {
 	} else {
 		w.BoolD, w.IntD, w.Int64D, w.FloatD = w.Bool, w.Int, w.Int64, w.Float
 	}
+	w.Query2, w.Trim2, w.Unescape2, w.Strings2 = w.QueryD, w.TrimD, w.UnescapeD, w.StringsD
+	w.Bool2, w.Int2, w.Int642, w.Float2 = w.BoolD, w.IntD, w.Int64D, w.FloatD
 	seg := string(c.Param)
 	if u, err := url.PathUnescape(seg); err == nil {
 		seg = u
@@ -180,6 +188,13 @@ func genAccCase(rng *rand.Rand) *accCase {
 	switch rng.Intn(10) {
 	case 0: // absent
 		parts = append(parts, "other=1")
+		if rng.Intn(2) == 0 {
+			// absent, but keys that merely resemble the name are there (list syntax of other frameworks, case, padding, prefix)
+			la := []string{"q[]=x", "q%5B%5D=7", "q[0]=1", "q.=1", "qq=2", "Q=3", "q+=4", "+q=5", "q%00=6", "aq=7", "q[]=a&q[]=b"}
+			for i := 1 + rng.Intn(2); i > 0; i-- {
+				parts = append(parts, la[rng.Intn(len(la))])
+			}
+		}
 	case 1: // present, empty
 		parts = append(parts, "q=")
 	case 2: // key only
@@ -195,7 +210,7 @@ func genAccCase(rng *rand.Rand) *accCase {
 		parts = append(parts, "lang="+esc(accValues[rng.Intn(len(accValues))]))
 	}
 	if rng.Intn(8) == 0 {
-		parts = append(parts, []string{"Q=upper", "q%20=sp", "%71=encodedname", ";", "&&", "=novalue"}[rng.Intn(6)])
+		parts = append(parts, []string{"Q=upper", "q%20=sp", "%71=encodedname", ";", "&&", "=novalue", "q[]=list", "q%5B%5D=list"}[rng.Intn(8)])
 	}
 	rng.Shuffle(len(parts), func(i, j int) { parts[i], parts[j] = parts[j], parts[i] })
 	c.RawQuery = core.B(strings.Join(parts, "&"))
@@ -249,6 +264,9 @@ func judgeAcc(w *core.W, c *accCase) {
 		got.Int, got.IntD = ctx.QueryInt(n), ctx.QueryInt(n, defI)
 		got.Int64, got.Int64D = ctx.QueryInt64(n), ctx.QueryInt64(n, defI)
 		got.Float, got.FloatD = ctx.QueryFloat64(n), ctx.QueryFloat64(n, defF)
+		got.Query2, got.Trim2, got.Unescape2 = ctx.Query(n, defS, "second"), ctx.QueryTrim(n, defS, "second"), ctx.QueryUnescape(n, defS, "second")
+		got.Strings2 = ctx.QueryStrings(n, defSS, []string{"second"})
+		got.Bool2, got.Int2, got.Int642, got.Float2 = ctx.QueryBool(n, true, false), ctx.QueryInt(n, defI, 9), ctx.QueryInt64(n, defI, 9), ctx.QueryFloat64(n, defF, 9)
 		got.Param, got.ParamAbsent = ctx.Param("v"), ctx.Param("nope")
 		got.ParamInt, got.ParamIntAbsent = ctx.ParamInt("v"), ctx.ParamInt("nope")
 		got.ParamInt64 = ctx.ParamInt64("v")
